@@ -67,6 +67,7 @@ PROP_MODELS = {
     'C11': ['sqrt', 'numpy.poly1d', 'numpy.roots', 'mutableseq'],
     'C12': ['sqrt', 'numpy.poly1d', 'numpy.roots'],
     'C07': ['sqrt', 'mutableseq'],
+    'C16': ['sqrt', 'mutableseq'],
     'C08': ['sqrt', 'numpy.poly1d', 'numpy.roots', 'mutableseq'],
     'C14': ['numpy.poly1d', 'numpy.small', 'mutableseq'],
     'C09': ['mutableseq'],
